@@ -40,7 +40,7 @@ def variants():
 
 
 def budget(tier):
-    return 200 if tier == "quick" else 5000
+    return 1000 if tier == "quick" else 8000
 
 
 FIXOPTS = [[], [], [], ["-m"], ["-e"], ["-f", "a"], ["-f", "dir1/"], ["-d", "d1"], ["-d", "d2"], ["-d", "parity"], ["-m", "-d", "d1"], ["-f", "*1"]]
@@ -58,8 +58,23 @@ def decode_case(raw):
     imperfect = {"kind": kind, "S": imp[1] % 8, "B": 1 + imp[2] % 8, "k": imp[1], "disk": imp[2] % nd, "fi": imp[3]}
     nvict = 1 + (dseed % (cfg["levels"] + 2))
     victims = damage.decode_devices(dints, cfg, nvict, allow_silent=True)
+    dmg = {"victims": victims, "seed": dseed}
+    if nd >= 2 and (dseed >> 4) % 3 == 0:
+        # copy-detected files in an unfinished sync, then lost together with (or without) the file they were copied from
+        for i in range(1 + (dseed >> 6) % 2):
+            a = (dseed >> (8 + 3 * i)) % nd
+            b = (a + 1 + (dseed >> (16 + i)) % (nd - 1)) % nd
+            chg_steps.append({"op": "copy", "disk": a, "fi": (dseed >> (12 + 2 * i)) % 4, "disk2": b, "keep_name": True})
+            tgt = "d%d" % (b + 1)
+            if (dseed >> 18) % 4 != 0 and all(v["dev"] != tgt for v in victims):
+                # the disk that received the copy is among the damaged ones
+                victims = ([{"dev": tgt, "shape": ["empty", "delete_some", "mixed"][(dseed >> 9) % 3]}] + victims)[:max(1, nvict)]
+                dmg["victims"] = victims
+        if kind not in ("partial", "kill_after", "shim_kill"):
+            imperfect["kind"] = ["kill_after", "partial"][(dseed >> 7) % 2]
+        dmg["lose_copy_sources"] = (dseed >> 5) % 3 != 0
     return {"cfg": cfg, "base": base_steps, "changes": chg_steps, "imperfect": imperfect, "later": later_steps,
-            "damage": {"victims": victims, "seed": dseed}, "fixopts": FIXOPTS[fo % len(FIXOPTS)]}
+            "damage": dmg, "fixopts": FIXOPTS[fo % len(FIXOPTS)]}
 
 
 def strategy(tier):
@@ -177,6 +192,18 @@ def run_case(case, ctx):
                     if st2 in (cfparse.BLK, cfparse.REP):
                         flippable.add((dn, f.sub, i))
         led = damage.apply_devices(w, c, case["damage"]["victims"], case["damage"]["seed"], keep_content=keep, flippable=flippable)
+        if case["damage"].get("lose_copy_sources"):
+            for ev in w.events:
+                if ev and ev[0] == "copy":
+                    p_ = w.full(ev[1], ev[2])
+                    if os.path.isfile(p_) and not os.path.islink(p_):
+                        os.unlink(p_)
+                        classes.add("source of a copied file lost too")
+        for dn_ in w.arr.disk_names():
+            d_ = c.disks.get(dn_.encode())
+            for f_ in (d_.files if d_ else []):
+                if any(b_[1] == cfparse.REP for b_ in f_.blocks) and not os.path.exists(w.full(dn_, f_.sub)):
+                    classes.add("lost file with copy-detected (REP) blocks")
         for v in case["damage"]["victims"]:
             classes.add("damage " + v["dev"][0] + ":" + v["shape"])
         if len(case["damage"]["victims"]) > cfg["levels"]:
@@ -191,6 +218,13 @@ def run_case(case, ctx):
         status = {}
         statrun = {}
         statpre = {}
+        w.fix_parity_mismatch = set()
+
+        def note_mismatch(run):
+            for t in run.tags:
+                if t[0] == b"parity_error" and len(t) >= 5 and t[3] == b"parity" and b"Parity mismatch" in t[4] and t[1].isdigit():
+                    w.fix_parity_mismatch.add(int(t[1]))
+        note_mismatch(fx)
         for t in fx.tag("status"):
             if len(t) >= 4:
                 status[(t[2].decode(), t[3])] = t[1].decode()
@@ -208,6 +242,7 @@ def run_case(case, ctx):
             fx = w.cmd("fix", case["fixopts"])
             if fx.timed_out:
                 return Outcome(ok=True, inconclusive=True)
+            note_mismatch(fx)
             for t in fx.tag("status"):
                 if len(t) >= 4:
                     status[(t[2].decode(), t[3])] = t[1].decode()
@@ -317,6 +352,15 @@ def classify(w, c, dn, f, V, pre_bytes, post_bytes, pre_entry, reruns=0):
         if reruns > 0 and got == b"\0" * len(got):
             sigs.add("C05-rerun-zero-parity")
             continue
+        # C05-pending-stale-parity: a pending block (no hash of its new data) lost in a stripe whose parity is still the old
+        # one for another pending/deleted block; with no hash, fix sacrifices a parity to check the reconstruction,
+        # some combinations disagree (logged "Parity mismatch") but one agrees by coincidence (tiny blocks, or the symmetric
+        # g^i / g^-i rows of z-parity) and the garbage, differing from the old data / from zero, is taken for the new data
+        if pos in getattr(w, "fix_parity_mismatch", ()):
+            others = [v for nm, v in cfparse.position_table(c).get(pos, {}).items() if nm != dn.encode()]
+            if any(v[0] != cfparse.BLK for v in others):
+                sigs.add("C05-pending-stale-parity")
+                continue
         # C05-chg-length: the block replaced, at the same position, a synced block of another byte length; the rebuilt OLD bytes
         # pass the "is it new data?" test because the past hash is compared over the NEW block's length
         row = (prev(pos) or {}).get(dn.encode())
